@@ -382,6 +382,12 @@ Definition C08_holds (op impl : sval) : holds :=
         match p_packet a, assoc "marshal" impl with
         | Some p, Some mr =>
             let T := tname p in
+            (* an encoding longer than the 16-bit length field can express (262140 octets): finding F18 *)
+            if 262140 <? size_packet p then
+              (if is_class "err" mr then HPass
+               else if is_class "panic" mr then HFail [SY "panic"; T; SY "oversize"]
+               else HFail [SY "length_field_wraps"; T; SY "oversize"])
+            else
             if is_class "panic" mr then HFail [SY "panic"; T] else
             if in_limits p then
               (if is_class "ok" mr then HPass else if in_D p then HFail [SY "in_limits_rejected"; T] else HTrivial)
